@@ -138,19 +138,20 @@ Section Spec.
   | reaches_trans i j k : reaches allowed i j -> In k (auths_of j) -> allowed k = true ->
                           reaches allowed i k.
 
-  (** Decision procedure on a store listed in topological order (every event after the
-      events it cites; the correspondence runs ship stores in creation order): one sweep
-      from the newest event to the oldest ([Proofs]: [chain_within_correct]). *)
-  Fixpoint sweep (allowed : id -> bool) (newest_first : list event) (marked : list id) : list id :=
-    match newest_first with
-    | [] => marked
-    | e :: r =>
-        sweep allowed r (if mem_str (e_id e) marked
-                         then marked ++ filter allowed (e_auth e) else marked)
+  (** Decision procedure: add the allowed auth events of everything found so far, as often
+      as the store has events (a path in an acyclic store is not longer than that;
+      [Proofs]: [chain_within_correct]). *)
+  Definition expand (allowed : id -> bool) (s : list id) : list id :=
+    dedup (s ++ filter allowed (flat_map auths_of s)).
+
+  Fixpoint iter_expand (n : nat) (allowed : id -> bool) (s : list id) : list id :=
+    match n with
+    | O => s
+    | S n' => iter_expand n' allowed (expand allowed s)
     end.
 
   Definition chain_within (allowed : id -> bool) (i : id) : list id :=
-    sweep allowed (rev st) (filter allowed (auths_of i)).
+    iter_expand (List.length st) allowed (filter allowed (auths_of i)).
 
   (** X: the power events of the full conflicted set, and the events of their auth chains
       that belong to the full conflicted set. *)
